@@ -1561,3 +1561,67 @@ PROPS["C12"]["level_text"] += (
     "whose items are accepted in place (ItemOK) with whitespace between and the delimiter rule yields exactly v1 .. vn with "
     "byte_offset() just past each item, then None at the end of the input for every further call; c12_typed_values_agree - the same "
     "for item texts of the C16 / C04 text leg (Agree1) separated by non-empty whitespace.")
+# ---- the two real string scanners of read.rs (Model.ReadSlice / ReadIo / ReadEscape; docs/READERS-NOTES.md). Additive amendments of C09 and C05.
+READERS_RULE = (" String scanners called directly (ops rd, rs; harness/src/readers.rs): serde_json::de::{StrRead, SliceRead, IoRead} are public and "
+                "the #[doc(hidden)] methods of the sealed trait Read can be called: parse_str, parse_str_raw, ignore_str (and decode_hex_escape "
+                "wherever a \\u has just been read) after `start` calls of next(), on the three readers side by side (IoRead over a randomly chunked "
+                "io::Read), observing bytes, Reference::Borrowed vs Copied (does the returned pointer lie inside the input, at which offset), "
+                "byte_offset() afterwards, or message, category, line, column and byte_offset(). Inputs: every escape family of c01::strings() as "
+                "bare literals (all ordered pairs of \\uXXXX over the 16 surrogate-class boundary values, triples after a leading surrogate, every "
+                "plane as a pair, 1500 (thorough 20000) random pairs), all 256 byte values at 12 position classes (raw, after a backslash, at each "
+                "of the four hex positions, after a leading surrogate, after its backslash, inside the second group) closed and at the end of "
+                "input, 11 literals with \\u groups cut at every length (with quotes / newlines / non-digits among the last bytes), bodies of every "
+                "length 0..26 (thorough 40) after 0..8 spaces with each of 8 special bytes at every offset (8-byte SWAR chunk boundaries), runs of "
+                "63..1000 (thorough 4097) bytes plain / with one escape / with a control byte / unclosed / all-\\u, 16 ill-formed and 6 well-formed "
+                "UTF-8 sequences in 6 contexts, 4000 (thorough 60000) random mixtures; a subset also end to end through Deserializer::from_str / "
+                "from_slice / from_reader into String, &str, ByteBuf, IgnoredAny (op rs). Non-trivial: the bytes after `start` are not all plain "
+                "ASCII, or the call fails.")
+PROPS["C09"]["rule"] += READERS_RULE
+PROPS["C05"]["rule"] += READERS_RULE
+PROPS["C09"]["lean_targets"] = PROPS["C09"]["lean_targets"][:-1] + ["SJ.Props.C09Readers"] + PROPS["C09"]["lean_targets"][-1:]
+PROPS["C05"]["lean_targets"] = PROPS["C05"]["lean_targets"][:-1] + ["SJ.Props.C09Readers"] + PROPS["C05"]["lean_targets"][-1:]
+PROPS["C09"]["gen_keys"] = PROPS["C09"]["gen_keys"] + ["readesc.", "ReadEsc", "hex.", "swar.", "Hex", "Swar"]
+PROPS["C05"]["gen_keys"] = PROPS["C05"]["gen_keys"] + ["readesc.", "ReadEsc"]
+PROPS["C09"]["lean_targets"] = PROPS["C09"]["lean_targets"][:-1] + ["SJ.Props.C09ReadersRaw"] + PROPS["C09"]["lean_targets"][-1:]
+# the honesty-pass item about c09_slice_reader (one reader abstraction in Model.Machine) is answered for strings: replace it
+PROPS["C09"]["partial"] = [x for x in PROPS["C09"]["partial"] if not x.startswith("c09_slice_reader (and with it")] + [
+    "c09_slice_reader is a theorem about Model.Machine, which has ONE reader abstraction (env.src is consulted only in endStr's UTF-8 check and "
+    "in errIdx). For STRING LITERALS - where the crate really has two scanners - this is no longer the whole story: SliceRead / StrRead and "
+    "IoRead are modelled separately (Model.ReadSlice, Model.ReadIo; the generic parse_escape / parse_unicode_escape / ignore_escape once, "
+    "Model.ReadEscape, as in the crate) and each is proved to refine the machine's string steps on every input (c09_machine_string_steps, "
+    "c09_slice_str_refines, c09_strread_str_refines, c09_io_str_refines, c09_slice_ignore_refines, c09_io_ignore_refines; raw variant against "
+    "Model.Typed.runRaw: c09_slice_raw_refines, c09_io_raw_refines), hence c09_str_readers_agree / c09_raw_readers_agree / "
+    "c09_str_readers_positions / c09_strread_slice are theorems about two different pieces of code. OUTSIDE string literals (whitespace, "
+    "numbers, idents, structure) de.rs is one generic body over next / peek / discard; there the difference between the sources is the "
+    "position bookkeeping, modelled separately in Model.LineCol (c09_readers_in_step, c09_positions_agree); the machine's 'reader' for those "
+    "parts remains one abstraction tied by the three-source correspondence run",
+    "the refinement theorems are stated from the state de.rs calls the functions in (slice: index <= len; reader: i bytes handed out, peek "
+    "slot empty, clean end of input); Error::io of a failing reader inside a string is Model.IoFault's business (C13), not modelled in "
+    "Model.ReadIo; the models are list-based (no usize overflow, no allocation failure)",
+]
+PROPS["C05"]["partial"] = [x for x in PROPS["C05"]["partial"] if not x.startswith("two clauses of the statement have no theorem")] + [
+    "borrowed clause: c05_borrowed / c05_borrowed_subslice (SliceRead::parse_str returns Reference::Borrowed exactly when the body holds no "
+    "backslash, and then the bytes are input[start .. end-1]) are theorems about Model.ReadSlice, the separately modelled slice scanner "
+    "(SWAR scan, bulk copy, scratch.is_empty() test), tied to the crate by op rd (pointer range of the returned &str). The step from "
+    "Reference::Borrowed to '<&str>::deserialize succeeds' is serde's visitor convention (visit_borrowed_str vs visit_str), observed by op rs",
+    "bytes clause ('WTF-8 for unpaired surrogates, raw non-UTF-8 passes through'): both readers' parse_str_raw are proved equal to "
+    "Model.Typed.runRaw (c09_slice_raw_refines, c09_io_raw_refines), the automaton behind the typed bytes target; there is no theorem "
+    "relating runRaw to an independent WTF-8 specification, and the borrowed flag of the raw variant is checked per case only (op rd R); "
+    "the decode theorems c05_decode_spec / c05_roundtrip are for the Value target of the machine, to which the real scanners are now tied "
+    "by c09_slice_str_refines / c09_io_str_refines + c09_machine_string_steps",
+]
+READERS_TB = ("the two string scanners of read.rs are modelled separately (Model.ReadSlice over Model.Swar.skipToEscape + Model.LineCol.SlicePos; "
+              "Model.ReadIo over Model.LineCol.IoPos; the generic free functions once in Model.ReadEscape) and proved to refine the machine's "
+              "string steps; what stays trusted there: the hand transcription of control flow (validated by ops rd / rs calling the real methods), "
+              "tools/extract.py gen_readesc for the escape letters / surrogate bounds / pair constants / hex-group lengths, str::from_utf8 = "
+              "Spec.Utf8.validUtf8, Vec / slice operations by documented semantics, memchr2 by contract (C05)")
+PROPS["C09"]["trusted_base"] = PROPS["C09"]["trusted_base"] + [READERS_TB]
+PROPS["C05"]["trusted_base"] = PROPS["C05"]["trusted_base"] + [READERS_TB]
+PROPS["C09"]["level_text"] += (" String scanners (Props/C09Readers.lean, Props/C09ReadersRaw.lean): SliceRead/StrRead and IoRead are separate models "
+                               "and each refines the machine's string steps on every input - same decoded bytes and end index, or same error code at "
+                               "the same index (control characters, invalid escapes, lone / unpaired surrogates, \\u cut by the end of input: both "
+                               "EofWhileParsingString at the end of input whenever fewer than four bytes follow \\u, InvalidEscape at k+4 otherwise iff "
+                               "not four hex digits; InvalidUnicodeCodePoint at the closing quote) - hence agree with each other, with the same line "
+                               "and column; &str = slice on valid UTF-8; parse_str_raw of both = Model.Typed.runRaw.")
+PROPS["C05"]["level_text"] += (" Borrowed clause: c05_borrowed / c05_borrowed_subslice over the separately modelled slice scanner (Model.ReadSlice); "
+                               "the real scanners are tied to the machine's decode theorems by c09_slice_str_refines / c09_io_str_refines.")
